@@ -558,3 +558,47 @@ func Sharing(r *rand.Rand, o SharingOpts) *Grammar {
 	}
 	return g
 }
+
+
+// Shapes2 enumerates bodies with exactly n nodes for a two-nonterminal grammar: leaves {a, b, eps, N0, N1},
+// operators SeqOf/2, Any/2, Optional. Used for the exhaustive small scope of mutually recursive grammars.
+func Shapes2(n int) []func(g *Grammar) *Expr {
+	memo := map[int][]func(g *Grammar) *Expr{}
+	var rec func(n int) []func(g *Grammar) *Expr
+	rec = func(n int) []func(g *Grammar) *Expr {
+		if v, ok := memo[n]; ok {
+			return v
+		}
+		var out []func(g *Grammar) *Expr
+		if n == 1 {
+			for _, c := range []byte("ab") {
+				c := c
+				out = append(out, func(g *Grammar) *Expr { return g.Rune(c) })
+			}
+			out = append(out, func(g *Grammar) *Expr { return g.Mk(OpEmpty) })
+			out = append(out, func(g *Grammar) *Expr { return g.Ref(0) })
+			out = append(out, func(g *Grammar) *Expr { return g.Ref(1) })
+		} else {
+			for _, k := range rec(n - 1) {
+				k := k
+				out = append(out, func(g *Grammar) *Expr { return g.Mk(OpOpt, k(g)) })
+			}
+			for l := 1; l <= n-2; l++ {
+				for _, a := range rec(l) {
+					for _, b := range rec(n - 1 - l) {
+						a, b := a, b
+						out = append(out, func(g *Grammar) *Expr { return g.Mk(OpSeqOf, a(g), b(g)) })
+						out = append(out, func(g *Grammar) *Expr { return g.Mk(OpAny, a(g), b(g)) })
+					}
+				}
+			}
+		}
+		memo[n] = out
+		return out
+	}
+	var all []func(g *Grammar) *Expr
+	for k := 1; k <= n; k++ {
+		all = append(all, rec(k)...)
+	}
+	return all
+}
